@@ -13,6 +13,7 @@ EXPLANATION = (
     "on decreasing weight. R05.4 (inventory of HashMap iterations) is informational only."
     ' R05.3 also requires that the Hungarian stage finds the row of a query and the column of a track by id in the id -> index map (never by adjacency in the stream); (R05.6) the idle listings pass every unexpired lookup result on - no dropping / short-circuiting adaptor besides the expiry filter; R05.1 also requires that a distance response reads from channels created by its own query.'
     ' (R05.7) a (candidate, track) pair is judged on its own whatever shares its shard (postprocess_distances per pair) and the simple tracker reads its records after the store updates of the call (sibling steps of the batch tracker).')
+EXPLANATION += ' (R05.8) the fixed-point weights keep different metric values apart: 64-bit and not saturated.'
 NOT_DECIDED = ["equality of tracker outputs across shard counts as an input-output statement (needs execution)",
                "tie-breaking for exactly equal weights (excluded by the property)"]
 ASSUMPTIONS = ["crossbeam channels lossless FIFO", "HashMap iteration order is arbitrary but complete",
@@ -48,6 +49,10 @@ def run(ctx):
                       'the records of a call are read after that call\'s store updates (same steps as the batch sibling)')
     C10.r6(ctx, 'R05.7')
     ctx.floor('R05.7', C06.sibling(ctx, 'R05.7'), 6)
+    import misclib
+    ctx.rule('R05.8', 'the fixed-point weights of the assignment keep different metric values apart (64-bit, not saturated): a '
+                      'tie-free input stays tie-free inside the solver, so its answer does not depend on arrival order')
+    ctx.floor('R05.8', misclib.rule_weights_fit(ctx, 'R05.8'), 4)
     inventory(ctx)
 
 
